@@ -134,21 +134,24 @@ impl VisitorMut for AstVerifier {
                 let text = text
                     .trim_end_matches("ULL")
                     .trim_end_matches("LL")
+                    .trim_end_matches('i')
                     .to_string();
 
+                // Literals we cannot evaluate here (hexadecimal floats, hexadecimal integers which do not fit
+                // an i64, imaginary numbers) are compared by their text: the formatter does not rewrite them
                 let number = match text.as_str().parse::<f64>() {
                     Ok(num) => num.to_string(),
                     // Try parsing as Hex (0x)
-                    Err(_) => match i64::from_str_radix(&text.as_str()[2..], 16) {
-                        Ok(num) => num.to_string(),
+                    Err(_) => match text.as_str().get(2..).map(|digits| i64::from_str_radix(digits, 16)) {
+                        Some(Ok(num)) => num.to_string(),
                         // If in Luau, try parsing as binary (0b)
                         #[cfg(feature = "luau")]
-                        Err(_) => match i64::from_str_radix(&text.as_str()[2..], 2) {
-                            Ok(num) => num.to_string(),
-                            Err(_) => unreachable!(),
+                        _ => match text.as_str().get(2..).map(|digits| i64::from_str_radix(digits, 2)) {
+                            Some(Ok(num)) => num.to_string(),
+                            _ => text.to_string(),
                         },
                         #[cfg(not(feature = "luau"))]
-                        Err(_) => unreachable!(),
+                        _ => text.to_string(),
                     },
                 };
 
